@@ -284,6 +284,13 @@ fn show_bytes(b: &[u8]) -> String {
 }
 
 /// differences between implementation and model observations (empty = agree)
+/// the model driver found a `run` block whose command is not in the case's vocabulary (it cannot know what `sh` does with it):
+/// the generator left its domain - e.g. a line it did not intend as a continuation became part of a command -
+/// and the case says nothing about the code; it is counted and skipped, never reported
+pub fn left_vocabulary(model: &Obs) -> bool {
+    model.verdict == "vocab"
+}
+
 pub fn diff_obs(imp: &Obs, model: &Obs) -> Vec<String> {
     let mut d = vec![];
     // the kind of failure (circular dependency vs other) is carried by a message only: not compared
